@@ -62,9 +62,12 @@ def sh(cmd, cwd=None, timeout=3600, env=None, input=None):
     return p.returncode, p.stdout
 
 
-def regen():
-    """translator: regenerate coq/Generated from /repo's working tree"""
-    rc, out = sh([sys.executable, os.path.join(ROOT, "tools", "extract.py"), "--repo", REPO])
+def regen(fam=None):
+    """translator: regenerate coq/Generated (and the family's Generated) from /repo's working tree"""
+    rc, out = sh([sys.executable, os.path.join(ROOT, "tools", "extract.py"), "--repo", REPO, "--family", "main"])
+    if rc == 0 and fam is not None and fam.name != "main":
+        rc, out2 = sh([sys.executable, os.path.join(ROOT, "tools", "extract.py"), "--repo", REPO, "--family", fam.name])
+        out += out2
     return rc == 0, out
 
 
@@ -315,7 +318,7 @@ TRUSTED_BASE = [
 def std_setup(chk, need_runner=True, need_harness=True, release=False, fam=None):
     """regenerate, proof gate, build runner + harness.  Returns (gate, harness_bin or None)."""
     fam = fam or MAIN
-    ok, out = regen()
+    ok, out = regen(fam)
     gate = None
     if not ok:
         chk.violation("translator failed: " + out.strip()[-400:], dict(kind="translator", output=out[-2000:]), no_input=True)
